@@ -76,10 +76,17 @@ def ob_seed(run, oid):
     prog = run.program("lib")
     o = run.ob(oid, "the per-call RNG is seeded only from (slot, slice) resp. (constant label, slot, shred index)",
                "a seed that ignores one of its inputs repeats relays across slices; a seed with extra inputs (own id, time) differs between nodes", floor=6)
-    for fn, want, forbid in ((ROTOR + "::sample_relays", {"slot", "slice"}, set()), (TREE + "::new", {"slot", "shred"}, {"own_id", "validators", "fanout"})):
+    # parameters are identified by position (sample_relays(&self, slot, slice); TurbineTree::new(validators, fanout, own_id, slot, shred)),
+    # so that renaming a parameter changes nothing
+    for fn, want_pos, forbid_pos in ((ROTOR + "::sample_relays", (2, 3), ()), (TREE + "::new", (4, 5), (1, 2, 3))):
         b = prog.body(fn)
         if b is None:
             o.missing(fn)
+            continue
+        want = set(b.local_name(i) for i in want_pos if i <= b.argc)
+        forbid = set(b.local_name(i) for i in forbid_pos if i <= b.argc)
+        if len(want) != len(want_pos):
+            o.fail("%s|from_seed|signature" % fshort(fn), "expected at least %d parameters" % max(want_pos), b.span)
             continue
         fs = [c for c in b.calls() if c.name.endswith("SeedableRng::from_seed") or c.name.endswith("::from_seed")]
         if len(fs) != 1:
@@ -124,11 +131,12 @@ def ob_cache(run, oid):
     prog = run.program("lib")
     o = run.ob(oid, "the relay / tree caches are memoisation: looked-up key = inserted key = seed inputs; inserted value = computed value = returned value",
                "a cache keyed by fewer inputs than the seed returns another (slot, slice)'s committee", floor=2)
-    for fn, cache_field, key_names in ((ROTOR + "::sample_relays", "relay_cache", {"slot", "slice"}), (TURB + "::get_tree", "tree_cache", {"slot", "shred"})):
+    for fn, cache_field, key_pos in ((ROTOR + "::sample_relays", "relay_cache", (2, 3)), (TURB + "::get_tree", "tree_cache", (2, 3))):
         b = prog.body(fn)
         if b is None:
             o.missing(fn)
             continue
+        key_names = set(b.local_name(i) for i in key_pos if i <= b.argc)
         gets = [c for c in b.calls() if c.name.endswith("Cache::get") and K.is_field(b.operand_term(c.args[0]), cache_field)]
         ins = [c for c in b.calls() if c.name.endswith("Cache::insert") and K.is_field(b.operand_term(c.args[0]), cache_field)]
         ok = len(gets) == 1 and len(ins) == 1
